@@ -17,7 +17,9 @@ def run(tier, seed):
     rep.explanation = (
         "Mixed. Deductive: each leaf rule's postcondition map == [startLine, state.line] with startLine < state.line <= endLine, start line non-empty, "
         "paragraph/heading/hr/code end on a non-blank line, inline maps ([startLine, line] resp. line-1 for setext) are discharged; skipEmptyLines "
-        "stops on a non-empty line. Bounded: the whole map contract on parse output (containers' end-line patches and the tokenize coverage invariant are bounded).")
-    rep.trusted_base = STD_TRUST
-    rep.assumptions = ["container rules (blockquote, list, table, reference) and ParserBlock.tokenize are covered by the bounded monitor only"]
+        "stops on a non-empty line. blockquote and list_block (pyvc): the open token's map starts at startLine and its end is patched with the line the nested block loop stopped at, startLine < line' <= lineMax (progress/termination of every item); "
+        "ParserBlock.tokenize dispatches rules only on non-empty lines with sCount >= blkIndent and always advances; StateBlock.__init__ builds well-formed tables that cover the source (thorough tier). "
+        "Bounded: the whole map contract on parse output (table and reference end-line handling, the coverage clause and the nesting of maps are bounded).")
+    rep.trusted_base += STD_TRUST
+    rep.assumptions += ["table and reference are covered by the bounded monitor only; the generic rule contract (tables restored, line' within lineMax) is proved for the rules under contract and assumed for the others"]
     return rep
